@@ -18,7 +18,7 @@ class C09(Check):
     design_ref = "DESIGN.md section 6, C09 (and section 3.4 for the translator)"
     technique = ("Coq proof over an executable scheduler model (all schedules, any number of threads) + translator tie of the two sink "
                  "bodies (clang JSON AST -> Gen/GenSinks.v -> Tie_C09.v) + sampled real-thread runs against a trapping stream buffer "
-                 "(ASan/UBSan; ThreadSanitizer build in the thorough tier)")
+                 "(ASan/UBSan and a ThreadSanitizer build, both tiers), every record checked byte for byte")
     level_text = ("Proved in Coq for ALL schedules, all thread counts, all record lists, over a model in which a sink call is the "
                   "statement list of `sink` expanded into Acquire / Enter / PutByte.. / Leave / Flush / Release slots and the stream "
                   "buffer is not thread-safe: if a guard on a mutex shared by all instances is alive at every insertion and flush, "
@@ -33,23 +33,29 @@ class C09(Check):
                   "storage of the mutex from clang's AST), the C++ driver and its parser; assumed, not proved: std::mutex / lock_guard / "
                   "unique_lock / scoped_lock give mutual exclusion and unlock at scope exit, `stream << std::string` is one xsputn call "
                   "on the buffer, logger::instance() (function-local static) is initialised once, the per-statement record and "
-                  "stringstream are private to the logging thread (stream.hpp). The universal statement is about the model; the "
+                  "stringstream are private to the logging thread (stream.hpp) — this last assumption is not in the model but is now "
+                  "exercised: the `same` cases hammer one logger type and severity from all threads and the driver checks the content "
+                  "of every record, and the ThreadSanitizer build watches the formatting path. The universal statement is about the model; the "
                   "implementation runs are a sample of real interleavings (schedule perturbation by yields and a dwell inside the "
                   "buffer), never all of them")
     rule = ("cases = (sink out|err) x (2..8 threads, per-thread record counts) x (payload length distribution z=0, s<=16, m<=256, "
             "l=1024..4096, x=extremes) x (mode n plain, y yield between bytes, d dwell inside the buffer) x seed: a small grid with the "
-            "observed order attached (judged by the extracted valid_orderb), high-contention cases, uneven cases (idle threads), corpus; "
-            "in the thorough tier the same kinds also on a ThreadSanitizer build. A case is non-trivial when at least two threads log "
+            "observed order attached (judged by the extracted valid_orderb), high-contention cases, uneven cases (idle threads), "
+            "`same` cases (all threads on ONE logger type and severity, one-expression statements with nine streamed items, up to "
+            "20000 records per thread), corpus; a batch of each kind also on a ThreadSanitizer build (larger in the thorough tier). "
+            "In every case each record's content (thread, seq, length, checksum, payload) is compared with the expected bytes. A case is non-trivial when at least two threads log "
             "at least one record each; distinct = distinct case line")
     modelled_note = ("modelled, not verified: std::mutex/lock_guard semantics (mutual exclusion, scope-exit unlock), one xsputn call per "
                      "inserted string, thread-safe function-local statics, privacy of the per-statement stringstream; real schedules are "
                      "sampled by the driver (not exhaustive); flush counts are not observed")
 
+    # second implementation binary: the same driver under ThreadSanitizer (cases ending in `tsan`), both tiers
+    cpps = {"tsan": dict(name="sched-tsan", driver_src="harness/sched_driver.cpp", libs=["-pthread"], flags=TSAN_FLAGS)}
+
     def __init__(self):
         thorough = "thorough" in sys.argv[1:] or os.environ.get("VERIF_TIER") == "thorough"
         if thorough:
-            self.cpps = {"tsan": dict(name="sched-tsan", driver_src="harness/sched_driver.cpp", libs=["-pthread"], flags=TSAN_FLAGS)}
-            os.environ.setdefault("VERIF_CASE_TIMEOUT", "30")
+            os.environ.setdefault("VERIF_CASE_TIMEOUT", "30")   # the 2000-records-per-thread cases
         self._raw = {}
 
     # ------------------------------------------------------------------ routing / canonicalisation
@@ -89,13 +95,34 @@ class C09(Check):
                 n = rng.randint(2, 8)
                 counts = [rng.choice([0, 1, 2, 30]) for _ in range(n)]
                 yield "%s %s %s %s %d ord" % (sink, csv(counts), rng.choice("zsmx"), rng.choice("nyd"), rng.randint(0, 99999)), "uneven-ord"
+        # (iv) `same`: all threads on ONE logger type and ONE severity, one-expression statements with nine streamed
+        #      items, high volume, short records — aimed at state a logger type shares between statements (the
+        #      per-statement record/stringstream must be private); the content of every record is checked
+        for rep in range(1 if quick else 4):
+            for sink in sinks:
+                for n, per in ((2, 20000), (4, 10000), (6, 8000), (8, 5000)):
+                    for dist in "zsm":
+                        per2 = per // 4 if dist == "m" else per
+                        counts = [rng.randint(per2 // 2, per2) for _ in range(n)]
+                        yield "%s %s %s n %d same" % (sink, csv(counts), dist, rng.randint(0, 99999)), "same-logger-volume"
+                yield "%s %s s y %d same" % (sink, csv([1500] * 4), rng.randint(0, 99999)), "same-logger-volume"
+                yield "%s %s s d %d ord same" % (sink, csv([rng.randint(2, 9) for _ in range(3)]), rng.randint(0, 99999)), "same-logger-volume"
+        # (v) a batch on the ThreadSanitizer build in the quick tier as well (volumes kept small: a racy tree makes
+        #     TSan report on every access)
+        if quick:
+            for sink in sinks:
+                for n, per in ((2, 3000), (4, 1500), (8, 600)):
+                    counts = [rng.randint(per // 2, per) for _ in range(n)]
+                    yield "%s %s s n %d same tsan" % (sink, csv(counts), rng.randint(0, 99999)), "tsan-same"
+                    counts = [rng.randint(20, 120) for _ in range(n)]
+                    yield "%s %s %s %s %d tsan" % (sink, csv(counts), rng.choice("sm"), rng.choice("nyd"), rng.randint(0, 99999)), "tsan"
         if not quick:
-            # (iv) the upper end of the design's range: 2000 records per thread, payloads up to 4096 bytes
+            # (vi) the upper end of the design's range: 2000 records per thread, payloads up to 4096 bytes
             for sink in sinks:
                 yield "%s %s l n %d" % (sink, csv([2000] * 4), rng.randint(0, 99999)), "huge"
                 yield "%s %s m y %d" % (sink, csv([2000] * 8), rng.randint(0, 99999)), "huge"
                 yield "%s %s l y %d" % (sink, csv([2000] * 8), rng.randint(0, 99999)), "huge"
-            # (v) the same kinds on the ThreadSanitizer build
+            # (vii) the same kinds on the ThreadSanitizer build
             for rep in range(8):
                 for sink in sinks:
                     for n in (2, 3, 8):
@@ -104,6 +131,11 @@ class C09(Check):
                                 hi = rng.choice([6, 60, 300])
                                 counts = [rng.randint(1, hi) for _ in range(n)]
                                 yield "%s %s %s %s %d tsan" % (sink, csv(counts), dist, mode, rng.randint(0, 99999)), "tsan"
+            for rep in range(10):
+                for sink in sinks:
+                    for n, per in ((2, 3000), (4, 1500), (8, 600)):
+                        counts = [rng.randint(per // 2, per) for _ in range(n)]
+                        yield "%s %s %s n %d same tsan" % (sink, csv(counts), rng.choice("zsm"), rng.randint(0, 99999)), "tsan-same"
 
     def tie_break_cases(self, coqres):
         """Tie_C09 (or a theorem over Gen/GenSinks.v) no longer checks: the model's witness is `two threads enter the
@@ -125,7 +157,7 @@ class C09(Check):
     def signature(self, case, mobs, iobs):
         w = case.split()
         cs = [int(c) for c in w[1].split(",")]
-        return (w[0], len(cs), w[2], w[3], min(max(cs) // 50, 4), "tsan" in w[5:], iobs.split(" ", 1)[0])
+        return (w[0], len(cs), w[2], w[3], min(max(cs) // 50, 4), "tsan" in w[5:], "same" in w[5:], iobs.split(" ", 1)[0])
 
     def shrink(self, case):
         w = case.split()
@@ -164,7 +196,7 @@ class C09(Check):
         except Exception as e:  # evidence only
             cov["translator_reading"] = "unavailable: %r" % e
         cov["real_thread_runs_are_a_sample"] = True
-        if ctx["tier"] == "thorough":
+        if True:
             cov["tsan_build"] = "g++ -fsanitize=thread, cases ending in `tsan`; a ThreadSanitizer report during a case is the observation RACE"
 
 
